@@ -176,6 +176,21 @@ pub fn validate_version_chunk_compatibility(version: AdtVersion, chunk: ChunkId)
                 });
             }
         }
+        ChunkId::MTXF => {
+            if !matches!(
+                version,
+                AdtVersion::WotLK | AdtVersion::Cataclysm | AdtVersion::MoP
+            ) {
+                return Err(AdtError::ChunkParseError {
+                    chunk: ChunkId::MTXF,
+                    offset: 0,
+                    details: format!(
+                        "MTXF (texture flags) requires WotLK or later, but version is {:?}",
+                        version
+                    ),
+                });
+            }
+        }
         ChunkId::MAMP => {
             if !matches!(version, AdtVersion::Cataclysm | AdtVersion::MoP) {
                 return Err(AdtError::ChunkParseError {
